@@ -173,10 +173,10 @@ func (b *BufferX) ReadLimitString(limit uint32) (string, error) {
 
 // WriteLimitString write limit size string
 func (b *BufferX) WriteLimitString(limit uint32, val string) error {
-	var size = uint32(len(val))
-	if size > limit {
+	if uint64(len(val)) > uint64(limit) {
 		return ErrSizeLimit
 	}
+	var size = uint32(len(val))
 	b.WriteU32(size)
 	_, _ = b.buffer.WriteString(val)
 	return nil
